@@ -10,6 +10,7 @@ THEOREMS = [
     "XcmModel.C04.C04_blocking_send_returns", "XcmModel.C04.C04_nonblocking_single_call",
     "XcmModel.C16.C16_readable_when_met", "XcmModel.C16.C16_active_fd_iff_bell",
     "XcmModel.C04btls.C04_btls_handshake_watched", "XcmModel.C04btls.C04_btls_waiter_has_source", "XcmModel.C04btls.C04_btls_terminal_rings", "XcmModel.C04btls.C04_btls_pending_rings",
+    "XcmModel.C04tp.C04_registrations_refreshed", "XcmModel.C04tp.C04_new_sockets_registered",
 ]
 
 
@@ -98,6 +99,19 @@ def run(ctx):
     ctx.assumptions += ["K-epoll and K-progress: a socket reported writable accepts at least one byte; bytes in flight become readable",
                         "the injected faults are EAGAIN and short counts only (what a kernel may answer); resets are C06's subject",
                         "real-time bounds are measured (watchdog 4 s), not proved"]
+    # the dispatch layer xcm_tp.c against the Lean Tp model
+    from gen import tp as _tp
+    texe = _tp.build()
+    tops = _tp.exhaustive()
+    for k in range(60 if ctx.tier == "quick" else 1500):
+        tops += _tp.gen_history(ctx.rng.fork("tp%d" % k), 40, ctx)
+    m, il = ctx.differential("unit_tp", "tp", texe, tops, label="tp")
+    _tp.Monitor(ctx).run(tops, il)
+    for o2, l2 in zip(tops, m):
+        ctx.nontriv(("tp", o2, l2.split("|")[1]))
+    ctx.rule += (" unit_tp: the real xcm_tp.c wrappers over a logging transport: the trace of transport calls (operation, control "
+                 "interface, update) for every answer kind x operation x auto_update/auto_enable_ctl, exhaustively and in random histories "
+                 "long enough to cross the 256-call control threshold, compared with the Lean Tp model; monitor: update is the last call.")
     # the TLS connection machine (xcm_tp_btls.c) against the Lean Btls model, with its monitors
     from gen import btls as _btls
     _btls.run_part(ctx, 10 if ctx.tier == "quick" else 300, exhaustive=True)
@@ -106,6 +120,15 @@ def run(ctx):
 
 def replay(path):
     r = json.load(open(path))
+    if r.get("harness") == "unit_tp":
+        from gen import tp as _tp
+        text = "\n".join(r["ops"]) + "\n"
+        common.lake_build(["driver"])
+        m = common.run_model("tp", text)
+        rc, out, err = common.run_proc([_tp.build()], text)
+        print("model:", *m, sep="\n  ")
+        print("impl (rc=%d):" % rc, *out.splitlines(), sep="\n  ")
+        return 0 if m == out.splitlines() and rc == 0 else 1
     if r.get("harness") == "unit_btls":
         from gen import btls as _btls
         return _btls.replay(r)
